@@ -311,3 +311,229 @@ Proof.
   - destruct (q_except q) as [t|]; [|discriminate P]. cbn [oget apply_statement]. rewrite (strip_span fl t _ _ (clause_ok_edge _ _ _ K)). reflexivity.
   - destruct (q_from q) as [t|]; [|discriminate P]. cbn [oget apply_statement]. rewrite (strip_span fl t _ _ (clause_ok_edge _ _ _ K)). reflexivity.
 Qed.
+
+(* ------------------------------------------------------------------ scanners on a text followed by j spaces *)
+Lemma eat_ci_app_sps : forall fl kw u j, letters kw = true ->
+  eat_ci fl kw (u ++ sps j) = option_map (fun r => r ++ sps j) (eat_ci fl kw u).
+Proof.
+  intros fl kw u j L. destruct j as [|j]; [|apply eat_ci_app_sp; exact L].
+  cbn [sps repeat]. rewrite app_nil_r. destruct (eat_ci fl kw u) as [r|]; [cbn [option_map]; rewrite app_nil_r|]; reflexivity.
+Qed.
+
+Lemma eat_one_sp_app_none : forall r j, eat_one_sp (r ++ [SP]) = None -> eat_one_sp (r ++ sps j) = None.
+Proof.
+  intros r j H. destruct r as [|c r]; [discriminate H|]. cbn [app eat_one_sp] in *. destruct (is_sp c); [discriminate H | reflexivity].
+Qed.
+
+Lemma eat_then_sp_none : forall fl kw u, letters kw = true ->
+  match eat_ci fl kw (u ++ [SP]) with Some r2 => eat_one_sp r2 | None => None end = None ->
+  forall j, match eat_ci fl kw (u ++ sps j) with Some r2 => eat_one_sp r2 | None => None end = None.
+Proof.
+  intros fl kw u L H j. rewrite (eat_ci_app_sps fl kw u j L). rewrite (eat_ci_app_sp fl kw u [] L) in H.
+  destruct (eat_ci fl kw u) as [r|]; [|reflexivity]. cbn [option_map] in *. apply eat_one_sp_app_none. exact H.
+Qed.
+
+Lemma span_by_app_sps : forall f u j, f SP = false ->
+  span_by f (u ++ sps j) = (fst (span_by f u), snd (span_by f u) ++ sps j).
+Proof.
+  intros f u j H. induction u as [|c u IH].
+  - destruct j as [|j]; [reflexivity|]. cbn [sps repeat app span_by]. rewrite H. reflexivity.
+  - cbn [app span_by]. destruct (f c); [|reflexivity]. rewrite IH. destruct (span_by f u). reflexivity.
+Qed.
+
+Lemma span_digits_stop : forall ds r, forallb is_digit ds = true -> span_by is_digit (ds ++ SP :: r) = (ds, SP :: r).
+Proof.
+  induction ds as [|d ds IH]; intros r H; [reflexivity|]. cbn [forallb] in H. apply andb_true_iff in H. destruct H as [H1 H2].
+  cbn [app span_by]. rewrite H1, (IH r H2). reflexivity.
+Qed.
+
+Lemma first_nonsp : forall fl T, edge_ok fl T = true -> exists c T', T = c :: T' /\ is_sp c = false.
+Proof.
+  intros fl T E. unfold edge_ok in E. destruct T as [|c T']; [discriminate E|]. exists c, T'. split; [reflexivity|].
+  destruct (rev (c :: T')); [discriminate E|]. apply andb_true_iff in E. destruct E as [E _]. apply negb_true_iff in E.
+  unfold is_sp. destruct (N.eqb_spec c 32) as [->|]; [|reflexivity]. change (txt_ws fl SP = false) in E. rewrite (txt_ws_SP fl) in E. discriminate E.
+Qed.
+
+Lemma drop_sp_edge : forall fl T a Y, edge_ok fl T = true -> drop_sp (sps a ++ T ++ Y) = T ++ Y.
+Proof.
+  intros fl T a Y E. rewrite drop_sp_sps. destruct (first_nonsp fl T E) as [c [T' [-> N]]]. apply drop_sp_nonsp. exact N.
+Qed.
+
+(* ------------------------------------------------------------------ SELECT: TOP *)
+Definition seltop_ok (fl : lang) (sel : str) : bool := isN (parse_top fl (sel ++ [SP])).
+Definition seldist_ok (fl : lang) (sel : str) : bool := isN (parse_distinct fl (sel ++ [SP])).
+Definition nocount (fl : lang) (sel : str) : bool :=
+  match eat_ci fl K_COUNT (sel ++ [SP]) with Some r2 => isN (eat_one_sp r2) | None => true end.
+
+Lemma parse_top_none : forall fl sel a j, edge_ok fl sel = true -> seltop_ok fl sel = true ->
+  parse_top fl (sps a ++ sel ++ sps j) = None.
+Proof.
+  intros fl sel a j E H. unfold seltop_ok in H. unfold parse_top in *. rewrite (drop_sp_edge fl sel a _ E).
+  pose proof (drop_sp_edge fl sel 0 [SP] E) as D0. cbn [sps repeat app] in D0. rewrite D0 in H.
+  rewrite (eat_ci_app_sps fl K_TOP sel j eq_refl). rewrite (eat_ci_app_sp fl K_TOP sel [] eq_refl) in H.
+  destruct (eat_ci fl K_TOP sel) as [r|]; [|reflexivity]. cbn [option_map] in *.
+  destruct (forallb is_sp r) eqn:A.
+  - rewrite (drop_sp_app_allsp r _ A). rewrite <- (app_nil_r (sps j)), drop_sp_sps. reflexivity.
+  - rewrite (drop_sp_app_nonsp r _ A). rewrite (drop_sp_app_nonsp r _ A) in H.
+    rewrite (span_by_app_sps is_digit (drop_sp r) j eq_refl). change [SP] with (sps 1) in H.
+    rewrite (span_by_app_sps is_digit (drop_sp r) 1 eq_refl) in H.
+    destruct (span_by is_digit (drop_sp r)) as [ds r2]. cbn [fst snd] in *. destruct ds as [|d ds]; [reflexivity|].
+    assert (N1 : eat_one_sp (r2 ++ [SP]) = None).
+    { change [SP] with (sps 1). destruct (eat_one_sp (r2 ++ sps 1)); [discriminate H | reflexivity]. }
+    rewrite (eat_one_sp_app_none r2 j N1). reflexivity.
+Qed.
+
+Lemma parse_top_hit : forall fl w g ds k a Y, case_rel K_TOP w -> forallb is_digit ds = true -> ds <> [] ->
+  parse_top fl (sps a ++ w ++ sps g ++ ds ++ sps (S k) ++ Y) = Some (N_of_digits ds, sps k ++ Y).
+Proof.
+  intros fl w g ds k a Y C D NE. unfold parse_top. rewrite drop_sp_sps.
+  assert (NS : drop_sp (w ++ sps g ++ ds ++ sps (S k) ++ Y) = w ++ sps g ++ ds ++ sps (S k) ++ Y).
+  { inversion C as [|k0 c0 l0 l0' Hc Hl E1 E2]. apply drop_sp_nonsp. destruct Hc as [<-|[_ [Hc _]]]; [reflexivity | apply alpha_is_sp; exact Hc]. }
+  rewrite NS, (eat_ci_case fl K_TOP w _ C), drop_sp_sps.
+  destruct ds as [|d ds]; [contradiction|].
+  assert (DN : is_sp d = false).
+  { cbn [forallb] in D. apply andb_true_iff in D. destruct D as [D _]. unfold is_digit, in_range in D. apply andb_true_iff in D.
+    destruct D as [D1 D2]. apply N.leb_le in D1. unfold is_sp. apply N.eqb_neq. lia. }
+  change ((d :: ds) ++ sps (S k) ++ Y) with (d :: (ds ++ sps (S k) ++ Y)). rewrite (drop_sp_nonsp d _ DN).
+  change (d :: ds ++ sps (S k) ++ Y) with ((d :: ds) ++ SP :: (sps k ++ Y)). rewrite (span_digits_stop _ _ D).
+  cbn [eat_one_sp]. change (is_sp SP) with true. cbv iota. reflexivity.
+Qed.
+
+(* ------------------------------------------------------------------ SELECT: DISTINCT [COUNT] *)
+Lemma word_drop : forall K w Y, case_rel K w -> letters K = true -> K <> [] -> drop_sp (w ++ Y) = w ++ Y.
+Proof.
+  intros K w Y C L NE. destruct C as [|k c K' w' Hc Hr]; [contradiction|]. cbn [app]. apply drop_sp_nonsp.
+  unfold letters in L. cbn [forallb] in L. apply andb_true_iff in L. destruct L as [L _].
+  destruct Hc as [<-|[_ [Hc _]]]; apply alpha_is_sp; assumption.
+Qed.
+
+Lemma parse_distinct_none : forall fl sel a j, edge_ok fl sel = true -> seldist_ok fl sel = true ->
+  parse_distinct fl (sps a ++ sel ++ sps j) = None.
+Proof.
+  intros fl sel a j E H. unfold seldist_ok in H. unfold parse_distinct in *. rewrite (drop_sp_edge fl sel a _ E).
+  pose proof (drop_sp_edge fl sel 0 [SP] E) as D0. cbn [sps repeat app] in D0. rewrite D0 in H.
+  rewrite (eat_ci_app_sps fl K_DISTINCT sel j eq_refl). rewrite (eat_ci_app_sp fl K_DISTINCT sel [] eq_refl) in H.
+  destruct (eat_ci fl K_DISTINCT sel) as [r|]; [|reflexivity]. cbn [option_map] in *.
+  destruct (match eat_ci fl K_COUNT (drop_sp (r ++ [SP])) with Some r2 => eat_one_sp r2 | None => None end) eqn:C1; [discriminate H|].
+  destruct (eat_one_sp (r ++ [SP])) eqn:S1; [discriminate H|].
+  destruct r as [|c r]; [discriminate S1|]. cbn [app eat_one_sp] in S1. destruct (is_sp c) eqn:NC; [discriminate S1|].
+  cbn [app] in *. rewrite (drop_sp_nonsp c (r ++ [SP]) NC) in C1. rewrite (drop_sp_nonsp c (r ++ sps j) NC).
+  change (c :: r ++ sps j) with ((c :: r) ++ sps j). change (c :: r ++ [SP]) with ((c :: r) ++ [SP]) in C1.
+  rewrite (eat_then_sp_none fl K_COUNT (c :: r) eq_refl C1 j). cbn [app eat_one_sp]. rewrite NC. reflexivity.
+Qed.
+
+Lemma parse_distinct_count : forall fl w g wc k a Y, case_rel K_DISTINCT w -> case_rel K_COUNT wc ->
+  parse_distinct fl (sps a ++ w ++ sps g ++ wc ++ sps (S k) ++ Y) = Some (true, sps k ++ Y).
+Proof.
+  intros fl w g wc k a Y C CC. unfold parse_distinct. rewrite drop_sp_sps.
+  rewrite (word_drop K_DISTINCT w _ C eq_refl ltac:(discriminate)). rewrite (eat_ci_case fl _ w _ C). rewrite drop_sp_sps.
+  rewrite (word_drop K_COUNT wc _ CC eq_refl ltac:(discriminate)). rewrite (eat_ci_case fl _ wc _ CC).
+  cbn [sps repeat app eat_one_sp]. change (is_sp SP) with true. cbv iota. reflexivity.
+Qed.
+
+Lemma parse_distinct_plain : forall fl w k a sel j, case_rel K_DISTINCT w -> edge_ok fl sel = true -> nocount fl sel = true ->
+  parse_distinct fl (sps a ++ w ++ sps (S k) ++ sel ++ sps j) = Some (false, sel ++ sps j).
+Proof.
+  intros fl w k a sel j C E NCnt. unfold parse_distinct. rewrite drop_sp_sps.
+  rewrite (word_drop K_DISTINCT w _ C eq_refl ltac:(discriminate)). rewrite (eat_ci_case fl _ w _ C).
+  rewrite (drop_sp_edge fl sel (S k) _ E).
+  assert (N1 : match eat_ci fl K_COUNT (sel ++ [SP]) with Some r2 => eat_one_sp r2 | None => None end = None).
+  { unfold nocount in NCnt. destruct (eat_ci fl K_COUNT (sel ++ [SP])) as [r2|]; [|reflexivity].
+    destruct (eat_one_sp r2); [discriminate NCnt | reflexivity]. }
+  rewrite (eat_then_sp_none fl K_COUNT sel eq_refl N1 j).
+  cbn [sps repeat app eat_one_sp]. change (is_sp SP) with true. cbv iota. reflexivity.
+Qed.
+
+Lemma parse_top_clash : forall fl w a Y, case_rel K_DISTINCT w -> parse_top fl (sps a ++ w ++ Y) = None.
+Proof.
+  intros fl w a Y C. unfold parse_top. rewrite drop_sp_sps. rewrite (word_drop K_DISTINCT w _ C eq_refl ltac:(discriminate)).
+  rewrite (clash_none_case fl K_TOP K_DISTINCT w Y); [reflexivity | destruct fl; reflexivity | exact C].
+Qed.
+
+(* the DISTINCT stage of the SELECT clause *)
+Definition dist_ok (fl : lang) (dist cnt : bool) (sel : str) : bool :=
+  if dist then (if cnt then true else nocount fl sel) else seldist_ok fl sel.
+
+Lemma dist_stage : forall fl s dist cnt sel a j, edge_ok fl sel = true -> dist_ok fl dist cnt sel = true ->
+  case_rel K_DISTINCT (s_dist s) -> case_rel K_COUNT (s_count s) ->
+  exists X, match parse_distinct fl (sps a ++ dist_part s dist cnt ++ sel ++ sps j) with
+            | Some (c, r) => (true, c, r)
+            | None => @pair (bool * bool) str (false, false) (sps a ++ dist_part s dist cnt ++ sel ++ sps j)
+            end = (dist, dist && cnt, X) /\ strip_txt fl X = sel.
+Proof.
+  intros fl s dist cnt sel a j E D C CC. unfold dist_part, dist_ok in *. destruct dist; [destruct cnt|].
+  - rewrite <- !app_assoc. rewrite (parse_distinct_count fl _ _ _ _ _ _ C CC). eexists. split; [reflexivity|].
+    apply strip_span. exact E.
+  - cbn [app]. rewrite <- !app_assoc. rewrite (parse_distinct_plain fl _ _ _ _ _ C E D). eexists. split; [reflexivity|].
+    apply (strip_span fl sel 0 j E).
+  - cbn [app]. rewrite (parse_distinct_none fl sel a j E D). eexists. split; [reflexivity|]. apply strip_span. exact E.
+Qed.
+
+(* ------------------------------------------------------------------ UPDATE: the optional SET *)
+Definition uset_ok (fl : lang) (asg : str) : bool :=
+  match eat_ci fl K_SET asg with
+  | None => true
+  | Some r => match fl with LPy => match r with c :: _ => negb (is_sp c) | [] => false end | LJs => false end
+  end.
+
+Lemma strip_set_plain : forall fl asg a j, edge_ok fl asg = true -> uset_ok fl asg = true ->
+  strip_set fl (sps a ++ asg ++ sps j) = sps a ++ asg ++ sps j.
+Proof.
+  intros fl asg a j E U. unfold strip_set, uset_ok in *. rewrite (drop_sp_edge fl asg a _ E).
+  rewrite (eat_ci_app_sps fl K_SET asg j eq_refl). destruct (eat_ci fl K_SET asg) as [r|]; [|reflexivity].
+  cbn [option_map]. destruct fl; [|discriminate U]. destruct r as [|c r]; [discriminate U|]. apply negb_true_iff in U.
+  cbn [app eat_one_sp]. rewrite U. reflexivity.
+Qed.
+
+Lemma strip_set_hit : forall fl w k asg a j, case_rel K_SET w -> edge_ok fl asg = true ->
+  strip_txt fl (strip_set fl (sps a ++ w ++ sps (S k) ++ asg ++ sps j)) = asg.
+Proof.
+  intros fl w k asg a j C E. unfold strip_set. rewrite drop_sp_sps. rewrite (word_drop K_SET w _ C eq_refl ltac:(discriminate)).
+  rewrite (eat_ci_case fl _ w _ C). destruct fl.
+  - cbn [sps repeat app eat_one_sp]. change (is_sp SP) with true. cbv iota. apply (strip_span LPy asg k j E).
+  - apply (strip_span LJs asg (S k) j E).
+Qed.
+
+(* ------------------------------------------------------------------ the head clause *)
+Definition top_ok (top : option str) : bool :=
+  match top with Some ds => nonempty ds && forallb is_digit ds | None => true end.
+Definition head_ok (fl : lang) (wf : bool) (k : qkind) : bool :=
+  match k with
+  | QSelect top dist cnt sel =>
+      clause_ok fl wf sel && top_ok top && dist_ok fl dist cnt sel &&
+      (match top with None => dist || seltop_ok fl sel | Some _ => true end)
+  | QUpdate asg => clause_ok fl wf asg && uset_ok fl asg
+  end.
+Definition head_put (k : qkind) (acc : actions) : actions :=
+  match k with
+  | QSelect top dist cnt sel =>
+      mkActions (a_with acc) (Some sel) (match top with Some ds => Some (N_of_digits ds) | None => None end) dist (dist && cnt)
+        (a_update acc) (a_where acc) (a_order acc) (a_group acc) (a_limit acc) (a_except acc) (a_join acc) (a_from acc)
+  | QUpdate asg =>
+      mkActions (a_with acc) (a_select acc) (a_top acc) (a_distinct acc) (a_distinct_count acc)
+        (Some asg) (a_where acc) (a_order acc) (a_group acc) (a_limit acc) (a_except acc) (a_join acc) (a_from acc)
+  end.
+Definition head_words_ok (s : sigma) : Prop :=
+  case_rel K_TOP (s_top s) /\ case_rel K_DISTINCT (s_dist s) /\ case_rel K_COUNT (s_count s) /\ case_rel K_SET (s_set_w s).
+
+Lemma apply_head : forall fl wf s k j acc, head_ok fl wf k = true -> head_words_ok s ->
+  apply_statement fl (head_st k) 0 (sps (S (s_hk s)) ++ head_text s k ++ sps j) acc = Ok (head_put k acc).
+Proof.
+  intros fl wf s k j acc H [CT [CD [CC CS]]]. destruct k as [top dist cnt sel | asg]; cbn [head_ok head_st head_text head_put] in *.
+  - apply andb_true_iff in H. destruct H as [H H4]. apply andb_true_iff in H. destruct H as [H H3].
+    apply andb_true_iff in H. destruct H as [H1 H2]. pose proof (clause_ok_edge _ _ _ H1) as E.
+    cbn [apply_statement Nat.eqb]. destruct top as [ds|]; cbn [top_part].
+    + cbn [top_ok] in H2. apply andb_true_iff in H2. destruct H2 as [N D].
+      rewrite <- !app_assoc. rewrite (parse_top_hit fl _ _ ds _ _ _ CT D) by (destruct ds; [discriminate N | discriminate]).
+      destruct (dist_stage fl s dist cnt sel (s_top_sp s) j E H3 CD CC) as [X [EQ ST]]. rewrite EQ, ST. reflexivity.
+    + cbn [app]. rewrite <- !app_assoc.
+      assert (PT : parse_top fl (sps (S (s_hk s)) ++ dist_part s dist cnt ++ sel ++ sps j) = None).
+      { destruct dist; cbn [orb] in H4.
+        - unfold dist_part. rewrite <- !app_assoc. apply parse_top_clash. exact CD.
+        - cbn [dist_part app]. apply parse_top_none; assumption. }
+      rewrite PT. destruct (dist_stage fl s dist cnt sel (S (s_hk s)) j E H3 CD CC) as [X [EQ ST]]. rewrite EQ, ST. reflexivity.
+  - apply andb_true_iff in H. destruct H as [H1 H2]. pose proof (clause_ok_edge _ _ _ H1) as E.
+    cbn [apply_statement Nat.eqb]. destruct (s_set s).
+    + rewrite <- !app_assoc. rewrite (strip_set_hit fl _ _ asg _ _ CS E). reflexivity.
+    + cbn [app]. rewrite (strip_set_plain fl asg _ _ E H2). rewrite (strip_span fl asg _ _ E). reflexivity.
+Qed.
